@@ -296,6 +296,7 @@ func runLayout(c *ctx, which string) {
 		c17EntryLess(c)
 		c17LargeBlocks(c)
 		c17TransientWriteFaults(c)
+		c12MultiBatchBlocks(c) // the recorded row count of blocks buffered from several batches
 	}
 }
 
